@@ -9,3 +9,4 @@ EXPLANATION = (
 UNDECIDED = "that the parser accepts every grammatical schema (no grammar is analysed); memory growth other than in the token loops."
 ASSUMPTIONS = ["str::char_indices yields char boundaries", "CString::as_bytes_with_nul appends one NUL"]
 OBLIGATIONS = [K.GEN_COUNT, K.SCHEMA_FLOW, K.AUTOSQL_LOOPS, K.SLICES, K.GEN_TOKENS, K.WRITER_LAYOUT[3], K.ITEMCOUNT_R, K.LOWERCASE]
+OBLIGATIONS = OBLIGATIONS + [K.PARSER_TABLES]
